@@ -90,7 +90,7 @@ CODES = ["G1", "G 1", "g1", "M117", "T0", "G28.1", "M 205", "G92", "", "G92.0", 
          "G38.2", "G0001"]
 PARAMS = ["", " X1 Y2", "X1Y2", " X-1.5 E.2 F3000", " Hello World", " X1 \\; not a comment",
           " a\\\\b", " S1 P0"]
-CHECKS = ["", "*33", " *7", "*1*2"]
+CHECKS = ["", "*33", " *7", "*1*2", "* 5", " *  17", "*", "* ", "*\t9", "*057"]
 TRAILS = ["", " ", "  "]
 COMMENTS = ["", ";c", "; a;b *9", ";"]
 EOLS = ["\n", "\r\n", "\r"]
